@@ -31,3 +31,23 @@ PROPS = {
         ],
     },
 }
+
+PROPS["C06"] = {
+    "scenario": "S-LINK(hostile)",
+    "level": "exploration",
+    "runs": {"quick": 90000, "thorough": 4000000},
+    "crash_clause": "C06.total",
+    "rule": "one run = one seeded tape: link kind, polling schedule variant, 0..6 (thorough 0..40) episodes - each the frames of one source packet damaged by up to three faults (interrupted, dropped, duplicated, swapped, header rewritten, foreign frame interleaved, start frame retransmitted; bit flip, zero byte, truncated / extended / arbitrary body incl. length 0 and 255, lying or oversized declared data length, line noise; CAN: standard id, remote, arbitrary id, overrun with frame loss, multi-frame without id byte) - an optional stale partial packet matching the probes' device/type, then two complete probe packets back-to-back; optional receiver restarts. Non-trivial = a hostile prefix existed, or the first probe was dropped with an error, or a prefix frame/builder error was returned. Distinct = distinct event-log hashes among those.",
+    "state_measure": "abstract state = bucketed frames taken x bucketed units in flight x last result class (ok / nothing / builder error / frame error / other)",
+    "probes": ["hostile_prefix", "probe_first_dropped_with_error", "prefix_builder_error", "prefix_frame_error", "stale_partial_before_probes",
+               "receiver_restarted", "fault_interrupted_packet", "fault_frame_dropped", "fault_frame_duplicated", "fault_frames_swapped",
+               "fault_header_rewritten", "fault_foreign_frame", "fault_start_retransmitted", "fault_bit_flip", "fault_zero_in_body",
+               "fault_body_truncated", "fault_body_extended", "fault_arbitrary_body", "fault_zero_length_frame", "fault_declared_length",
+               "fault_line_noise", "fault_can_standard_id", "fault_can_remote", "fault_can_arbitrary", "fault_can_overrun",
+               "fault_can_multi_without_id"],
+    "components": REAL_LINK + ["real (as frame source only): Packet::to_frames, Frame::to_usart_frame / to_bxcan_frame build the valid frames that the fault injector then damages"],
+    "assumptions": COMMON_ASSUMPTIONS + [
+        "whole link frames only (a delimiter, a length byte L, exactly L body bytes; non-zero noise between frames), as the property states; byte loss inside a frame is not injected",
+        "a result is attributed to the link frame taken last from the device before the poll returned (the receivers read no further than the frame they report on)",
+    ],
+}
